@@ -79,6 +79,8 @@ def gen_case(rng, tier, damaged, single_ok=True):
             "via": rng.choice(["lib", "lib", "cli", "cli-check"]), "form": rng.choice(["root", "parent"]),
             "order_seed": rng.randrange(1 << 20), "damage": [],
             "prelude": rng.randrange(1, 1 << 30) if rng.random() < 0.3 else None}
+    if case["via"] == "lib" and rng.random() < 0.25:
+        case["reuse"] = rng.choice(["after-intact", "after-intact", "after-partial"])
     if rng.random() < 0.2:
         # the content path as a user may type it: trailing / doubled separator, dot segment, relative to the cwd
         case["spell"] = rng.choice(["trailing-slash", "dot-segment", "double-sep", "relative"])
@@ -294,14 +296,24 @@ def observe(case, scratch):
         obs["create_error"] = {"exc": mpath.excname(), "tb": mpath.tb[-1200:]}
         obs["reach"] = reach.collect()
         return obs
-    apply_damage(root, tree, case["damage"])
-    ref = rt.recheck(raw, root)
-    obs["ref"] = ref
     target = root if case["form"] == "root" else base
     if case.get("spell"):
         from .create_family import spelled
         target = spelled(case, target)
-    if case["via"] == "lib":
+    reuse = case.get("reuse") if case["via"] == "lib" else None
+    if reuse:
+        # ONE Checker object: a first pass over the intact content (or one abandoned after its first piece), then the
+        # damage is applied, then the judged pass on the same object
+        obs["first_pass"], oc = drive.recheck_lib_reused(mpath, target, lambda: apply_damage(root, tree, case["damage"]),
+                                                         partial=(reuse == "after-partial"))
+        obs["reused_checker"] = reuse
+    else:
+        apply_damage(root, tree, case["damage"])
+    ref = rt.recheck(raw, root)
+    obs["ref"] = ref
+    if reuse:
+        pass
+    elif case["via"] == "lib":
         oc = drive.recheck_lib(mpath, target)
     else:
         oc = drive.recheck_cli(mpath, target, "recheck" if case["via"] == "cli" else "check")
@@ -345,6 +357,8 @@ def _common_result(case, obs, viol, counters, sample_extra=None):
         counters["cases_with_megabyte_pieces"] = 1
     if case.get("spell"):
         counters["content_path_spelled_cases"] = 1
+    if case.get("reuse") and case["via"] == "lib":
+        counters["checker_object_reused_cases"] = 1
     if case["tree"]["layout"] == "many-pieces":
         counters["cases_with_thousands_of_pieces"] = 1
     if case["tree"]["layout"] == "utf8-hash-multi":
